@@ -1690,8 +1690,10 @@ package spec
 // same length that encodes the same way
 //@ axiom forall s []string :: triggers(encOf(s)) && ((s == nil ==> encOf(s) == jNull()) && (s != nil ==> jIsArr(encOf(s))) && decOKOf("[]string", encOf(s))
 //@        && len(decOf("[]string", encOf(s))) == len(s) && encOf(decOf("[]string", encOf(s))) == encOf(s) && (s != nil ==> decOf("[]string", encOf(s)) != nil))
-//@ axiom forall s []Schema :: triggers(encOf(s)) && ((s == nil ==> encOf(s) == jNull()) && (s != nil ==> jIsArr(encOf(s))) && decOKOf("[]Schema", encOf(s))
-//@        && len(decOf("[]Schema", encOf(s))) == len(s) && encOf(decOf("[]Schema", encOf(s))) == encOf(s) && (s != nil ==> decOf("[]Schema", encOf(s)) != nil))
+//@ axiom forall s []Schema :: triggers(encOf(s)) && ((s == nil ==> encOf(s) == jNull()) && (s != nil ==> jIsArr(encOf(s))))
+//@ axiom forall j jsonvalue :: triggers(decOf("[]Schema", j)) && (jIsArr(j) && decOKOf("[]Schema", j) ==> decOf("[]Schema", j) != nil)
+// a schema always encodes as an object (post/(Schema).MarshalJSON/shape)
+//@ axiom forall x Schema :: triggers(encOf(x)) && isObj(encOf(x))
 // a string encodes as a JSON string that decodes (into a string or an interface{}) to itself
 //@ axiom forall s string :: triggers(encOf(s)) && (decOKOf("string", encOf(s)) && decOf("string", encOf(s)) == s && decOKOf("interface{}", encOf(s)))
 
@@ -1702,5 +1704,27 @@ package spec
 //@ func verifLemmaStringOrArrayFixedPoint
 //@   property C07
 //@   requires len(v) >= 0
+//@   ensures  [C07] encoded-form-decodes @@ result0 != nil ==> result1 != nil
+//@   ensures  [C07] fixed-point @@ result0 != nil && result1 != nil ==> jv(result1) == jv(result0)
+
+// the element kind's own fixed point is the induction hypothesis of the union lemmas
+//@ define schemaFP(x Schema) bool = decOKOf("Schema", encOf(x)) && encOf(decOf("Schema", encOf(x))) == encOf(x) && encOKOf(decOf("Schema", encOf(x)))
+//@ define schemasFP(s []Schema) bool = decOKOf("[]Schema", encOf(s)) && encOf(decOf("[]Schema", encOf(s))) == encOf(s) && encOKOf(decOf("[]Schema", encOf(s))) && (len(decOf("[]Schema", encOf(s))) > 0) == (len(s) > 0)
+
+//@ func verifLemmaSchemaOrBoolFixedPoint
+//@   property C07
+//@   requires v.Schema != nil ==> schemaFP(*v.Schema)
+//@   ensures  [C07] encoded-form-decodes @@ result0 != nil ==> result1 != nil
+//@   ensures  [C07] fixed-point @@ result0 != nil && result1 != nil ==> jv(result1) == jv(result0)
+
+//@ func verifLemmaSchemaOrStringArrayFixedPoint
+//@   property C07
+//@   requires len(v.Property) >= 0 && (v.Schema != nil ==> schemaFP(*v.Schema))
+//@   ensures  [C07] encoded-form-decodes @@ result0 != nil ==> result1 != nil
+//@   ensures  [C07] fixed-point @@ result0 != nil && result1 != nil ==> jv(result1) == jv(result0)
+
+//@ func verifLemmaSchemaOrArrayFixedPoint
+//@   property C07
+//@   requires len(v.Schemas) >= 0 && (v.Schema != nil ==> schemaFP(*v.Schema)) && (len(v.Schemas) > 0 ==> schemasFP(v.Schemas))
 //@   ensures  [C07] encoded-form-decodes @@ result0 != nil ==> result1 != nil
 //@   ensures  [C07] fixed-point @@ result0 != nil && result1 != nil ==> jv(result1) == jv(result0)
